@@ -655,7 +655,45 @@ func (t *State) verifyTxRWSets(tx *pb.Transaction) (bool, error) {
 		return false, fmt.Errorf("write set not equal")
 	}
 
+	// the transfers made by the contracts (just reproduced through the write set) must be carried out
+	// by the tx itself: its inputs contain the utxos the contracts spent, its outputs what they paid
+	utxoOutput, err := xmodel.ParseContractUtxoOutputs(tx)
+	if err != nil {
+		return false, err
+	}
+	if !isContractUtxoEffective(utxoInput, utxoOutput, tx) {
+		return false, fmt.Errorf("contract utxo not effective in tx")
+	}
+
 	return true, nil
+}
+
+// isContractUtxoEffective checks that the contract utxo inputs are inputs of tx and that the contract
+// utxo outputs are (as a multiset) outputs of tx
+func isContractUtxoEffective(conInputs []*protos.TxInput, conOutputs []*protos.TxOutput, tx *pb.Transaction) bool {
+	txInputs := map[string]bool{}
+	for _, in := range tx.GetTxInputs() {
+		txInputs[utxo.GenUtxoKey(in.GetFromAddr(), in.GetRefTxid(), in.GetRefOffset())] = true
+	}
+	for _, in := range conInputs {
+		if !txInputs[utxo.GenUtxoKey(in.GetFromAddr(), in.GetRefTxid(), in.GetRefOffset())] {
+			return false
+		}
+	}
+	txOutputs := map[string]int{}
+	outKey := func(out *protos.TxOutput) string {
+		return fmt.Sprintf("%s_%x_%d", out.GetToAddr(), out.GetAmount(), out.GetFrozenHeight())
+	}
+	for _, out := range tx.GetTxOutputs() {
+		txOutputs[outKey(out)]++
+	}
+	for _, out := range conOutputs {
+		if txOutputs[outKey(out)] < 1 {
+			return false
+		}
+		txOutputs[outKey(out)]--
+	}
+	return true
 }
 
 // verifyAutoTxRWSets verify auto tx read sets and write sets
